@@ -99,12 +99,6 @@ FINDINGS = {
     B(["RenameTable", "T2", "SUM"], ops=["rename_any"]),
     # the shadowing shows when the summary formula is next recomputed
     B(["RenameTable", "T1", "T9"], ops=["rename_any"])]},
-  # C29 ------------------------------------------------------------------------------------------
-  "F-n.c29": {"profile": "c29", "cfg": {}, "events": [
-    OPEN, B(["AddTable", "T1", [col("c", "Int")]], ["BulkAddRecord", "T1", [None] * 2, {"c": [1, 2]}]),
-    B(["CreateViewSection", 1, 0, "record", [2], None]),
-    {"k": "tread", "call": "evaluate_formula", "args": ["T1_summary_c", "group", 1]},
-    B(["UpdateRecord", "T1", 1, {"c": 5}])]},
 }
 
 ok = True
